@@ -140,6 +140,8 @@ pub fn aux_replay(case: &Value) -> Result<Vec<Viol>, String> {
 }
 
 fn faults(m: &Model, valid: &[u8], other_seed: &[u8], other_params: &[u8], half: &[u8], th: bool, all_bits: bool) -> Vec<(String, Vec<u8>, bool)> {
+    // large buffers (H10 top tree: 43 KB): one flipped bit per 16 bytes of cached nodes, every length on a grid
+    let big = valid.len() > 8000;
     let n = m.n();
     let mut f: Vec<(String, Vec<u8>, bool)> = vec![];
     f.push(("valid".into(), valid.to_vec(), true));
@@ -148,6 +150,9 @@ fn faults(m: &Model, valid: &[u8], other_seed: &[u8], other_params: &[u8], half:
         for bit in 0..8 {
             let header = byte < 4 || byte >= valid.len() - n;
             if !all_bits && !header && bit != byte % 8 {
+                continue;
+            }
+            if big && !header && (byte % 16 != 0 || bit != (byte / 16) % 8) {
                 continue;
             }
             let mut b = valid.to_vec();
@@ -164,6 +169,9 @@ fn faults(m: &Model, valid: &[u8], other_seed: &[u8], other_params: &[u8], half:
     }
     // truncation to every length, padding
     for l in 0..valid.len() {
+        if big && l > 64 && l % 97 != 0 && l + 40 < valid.len() {
+            continue;
+        }
         f.push((format!("truncate@{}", l), valid[..l].to_vec(), true));
     }
     for extra in 1..=(n + 4) {
@@ -187,7 +195,7 @@ fn faults(m: &Model, valid: &[u8], other_seed: &[u8], other_params: &[u8], half:
     f.push(("other-seed-buffer-marker-zeroed-plus-one".into(), oz, true));
     f.push(("same-seed-other-parameters-buffer".into(), other_params.to_vec(), false));
     // garbage
-    let lens: Vec<usize> = if th { (0..=valid.len() + 8).collect() } else { vec![0, 1, 2, 3, 4, 5, n, n + 3, n + 4, n + 5, valid.len() / 2, valid.len() - 1, valid.len(), valid.len() + 5] };
+    let lens: Vec<usize> = if th && !big { (0..=valid.len() + 8).collect() } else { vec![0, 1, 2, 3, 4, 5, n, n + 3, n + 4, n + 5, valid.len() / 2, valid.len() - 1, valid.len(), valid.len() + 5] };
     for l in lens {
         for first in [0u8, 0xa5, 0x80, 0x01] {
             let mut g = vec![0xa5u8; l];
@@ -230,12 +238,27 @@ pub fn run_c10(ctx: &Ctx) -> (&'static str, Map<String, Value>) {
         cfgs.push((Hid::K24, vec![p(1, 5)], vec![17]));
     }
     if th {
-        cfgs.push((Hid::S32, vec![p(8, 10)], vec![0, 1023]));
+        cfgs.push((Hid::S32, vec![p(4, 10)], vec![0, 1023]));
         cfgs.push((Hid::S16, vec![p(4, 10), p(4, 2)], vec![4095]));
     }
     let classes = Mutex::new(BTreeMap::<String, u64>::new());
-    let mut all: Vec<AuxCase> = vec![];
+    let total_cases = std::sync::atomic::AtomicU64::new(0);
+    let run_cases = |all: Vec<AuxCase>| {
+        total_cases.fetch_add(all.len() as u64, std::sync::atomic::Ordering::Relaxed);
+        all.par_iter().for_each(|c| {
+            let v = aux_eval(c);
+            let cls = format!("{}:{}:{}", c.op, c.fault.split('@').next().unwrap_or(""), if v.is_empty() { "same-as-no-aux" } else { "DIFFERS/PANIC" });
+            *classes.lock().unwrap().entry(cls).or_insert(0) += 1;
+            for x in v {
+                ctx.report(&x, || json!({"engine":"c10","case":c}));
+            }
+        });
+        for c in all.iter().step_by((all.len() / 2).max(1)).take(1) {
+            ctx.sample(|| json!({"hash": c.hid.name(), "params": c.params, "op": c.op, "fault": c.fault, "aux_len": c.aux.len() / 2, "counter": c.counter}));
+        }
+    };
     for (hid, params, counters) in &cfgs {
+        let mut all: Vec<AuxCase> = vec![];
         let m = Model::new(*hid);
         let seed = det_bytes(ctx.seed, &format!("c10:{}:{:?}", hid.name(), params), hid.n());
         let other = det_bytes(ctx.seed, &format!("c10-other:{}:{:?}", hid.name(), params), hid.n());
@@ -271,7 +294,9 @@ pub fn run_c10(ctx: &Ctx) -> (&'static str, Map<String, Value>) {
             all.push(AuxCase { hid: *hid, params: params.clone(), seed: hex::encode(&seed), counter: 0, aux: hex::encode(vec![0u8; l]), op: "keygen".into(), entry: Entry::Bytes, fault: format!("fresh-zero@{}", l), verdict_on_equality: true });
             all.push(AuxCase { hid: *hid, params: params.clone(), seed: hex::encode(&seed), counter: counters[0], aux: hex::encode(vec![0u8; l]), op: "sign".into(), entry: Entry::Bytes, fault: format!("fresh-zero@{}", l), verdict_on_equality: true });
         }
-        let all_bits = th || h0 <= 2;
+        // every bit: 4-leaf top trees always, SHA-256 single-level H5 in the thorough tier; otherwise one
+        // (rotating) bit per byte of the cached nodes and every bit of level word and MAC
+        let all_bits = h0 <= 2 || (th && !hid.shake() && params.len() == 1 && h0 <= 5);
         for (name, buf, verdict) in faults(&m, &valid, &other_seed_buf, &other_params_buf, &half, th, all_bits) {
             all.push(AuxCase { hid: *hid, params: params.clone(), seed: hex::encode(&seed), counter: 0, aux: hex::encode(&buf), op: "keygen".into(), entry: Entry::Bytes, fault: name.clone(), verdict_on_equality: verdict });
             for (ci, c) in counters.iter().enumerate() {
@@ -283,6 +308,7 @@ pub fn run_c10(ctx: &Ctx) -> (&'static str, Map<String, Value>) {
                 all.push(AuxCase { hid: *hid, params: params.clone(), seed: hex::encode(&seed), counter: *c, aux: hex::encode(&buf), op: "sign".into(), entry, fault: name.clone(), verdict_on_equality: verdict });
             }
         }
+        run_cases(all);
     }
     // every aux mode at every state of whole lifetimes (Engine A): a fresh zero buffer, the valid buffer,
     // through both entry points -- the outcome must equal the aux-less call in every state
@@ -308,18 +334,7 @@ pub fn run_c10(ctx: &Ctx) -> (&'static str, Map<String, Value>) {
         }
     }
     let (life_agg, life_labels) = crate::props_life::run_lattice(ctx, life);
-    let total = all.len() as u64;
-    all.par_iter().for_each(|c| {
-        let v = aux_eval(c);
-        let cls = format!("{}:{}:{}", c.op, c.fault.split('@').next().unwrap_or(""), if v.is_empty() { "same-as-no-aux" } else { "DIFFERS/PANIC" });
-        *classes.lock().unwrap().entry(cls).or_insert(0) += 1;
-        for x in v {
-            ctx.report(&x, || json!({"engine":"c10","case":c}));
-        }
-    });
-    for c in all.iter().step_by((all.len() / 5).max(1)).take(5) {
-        ctx.sample(|| json!({"hash": c.hid.name(), "params": c.params, "op": c.op, "fault": c.fault, "aux_len": c.aux.len() / 2, "counter": c.counter}));
-    }
+    let total = total_cases.load(std::sync::atomic::Ordering::Relaxed);
     ctx.assume("buffers with a valid MAC for the same seed but other parameters are executed (no panic required) but carry no verdict on equality: the statement promises seed binding only");
     ctx.assume("the statement does not require that a valid buffer IS used; only that outputs never change and that unauthenticated contents are never read back (decided by planting wrong non-zero nodes)");
     let mut m = Map::new();
